@@ -21,6 +21,7 @@ def check(repo: Repo, rep, tier):
     unmanaged_guard(repo, rep)
     star_freeze(repo, rep)
     reeval_refresh(repo, rep)
+    items_total(repo, rep)
 
 
 # ---------------------------------------------------------------- wrap at entry
@@ -475,3 +476,40 @@ def map_total(repo: Repo, rep):
             else:
                 rep.ok("R-MAP-TOTAL", m, m.node, f"{c.name}.{mname} keeps every element")
     rep.floor("R-MAP-TOTAL", "map()/arguments() implementations", n, 8)
+
+
+def items_total(repo: Repo, rep):
+    rep.rule(
+        "R-ITEMS-TOTAL",
+        "every adapter items() returns one Item per element of the value on every path (with node=None when no node can be assigned), never an empty or "
+        "filtered list: re-evaluation refreshes Is()/nested-snapshot wrappers through items(), and update detection walks it",
+    )
+    base = repo.cls("Adapter", "_adapter/adapter.py")
+    n = 0
+    for c in repo.all_classes():
+        if c == base or base not in repo.mro(c) or "items" not in c.methods:
+            continue
+        m = c.methods["items"]
+        vparam = m.params[1] if len(m.params) > 1 else None
+        cfg = cfg_of(m)
+        for r in cfg.stmts(ast.Return):
+            n += 1
+            v = r.ast.value
+            if isinstance(v, ast.Name):
+                v = resolve_alias(cfg, r, v)
+            bad = None
+            if v is None or (isinstance(v, (ast.List, ast.Tuple)) and not v.elts) or (isinstance(v, ast.Constant)):
+                # `result = []` filled by a loop over the value is fine
+                filled = isinstance(r.ast.value, ast.Name) and any(isinstance(cc.func, ast.Attribute) and cc.func.attr == "append" and norm(cc.func.value) == r.ast.value.id for nd in cfg.live for cc in node_calls(nd))
+                if not filled:
+                    bad = "returns an empty list"
+            else:
+                comps = [x for x in ast.walk(v) if isinstance(x, (ast.ListComp, ast.GeneratorExp))]
+                for cp in comps:
+                    if any(g.ifs for g in cp.generators):
+                        bad = "filters elements"
+            if bad:
+                rep.violation("R-ITEMS-TOTAL", m, r.ast, f"{c.name}.items {bad} on some path: Is()/nested-snapshot wrappers inside such a container are no longer refreshed on re-evaluation (later comparisons use the value of the first evaluation)", construct=f"{c.name}.items:{norm(r.ast)[:40]}")
+            else:
+                rep.ok("R-ITEMS-TOTAL", m, r.ast, f"{c.name}.items returns every element")
+    rep.floor("R-ITEMS-TOTAL", "return sites of items()", n, 5)
